@@ -3312,7 +3312,8 @@ Octagonal_Shape<T>::simplify_using_context_assign(const Octagonal_Shape& y) {
   if (x.contains(y)) {
     Octagonal_Shape<T> res(dim, UNIVERSE);
     x.m_swap(res);
-    return false;
+    // The intersection is `y' itself: it is empty only if `y' is.
+    return !y.marked_empty();
   }
 
   // Filter away the case where `x' is empty.
